@@ -74,6 +74,11 @@ func concOps() []cop {
 		{"setattr", memfs.ClassWrite, "SetAttr", '*', '*', false, func(p *rawpeer.Peer, tag uint16, fid, aux uint64, ch string) {
 			p.Send(wire.Tsetattr, tag, fid, u(1), u(0600), u(0), u(0), u(0), u(0), u(0), u(0), u(0))
 		}},
+		// the same with a timestamps-only mask (utimensat, touch): a SetAttr is
+		// a write-class call whatever it sets
+		{"setattr-times", memfs.ClassWrite, "SetAttr", '*', '*', false, func(p *rawpeer.Peer, tag uint16, fid, aux uint64, ch string) {
+			p.Send(wire.Tsetattr, tag, fid, u(0x30), u(0), u(0), u(0), u(0), u(7), u(0), u(9), u(0))
+		}},
 		{"create", memfs.ClassWrite, "Create", 'd', 'u', false, func(p *rawpeer.Peer, tag uint16, fid, aux uint64, ch string) {
 			p.Send(wire.Tlcreate, tag, fid, fmt.Sprintf("new%d", tag), u(2), u(0644), u(0))
 		}},
@@ -232,7 +237,7 @@ func (o cop) fits(t ctarget) bool {
 	case 'l':
 		return t.link
 	}
-	return !t.link || o.name == "getattr" || o.name == "statfs" || o.name == "clone" || o.name == "setattr"
+	return !t.link || o.name == "getattr" || o.name == "statfs" || o.name == "clone" || o.name == "setattr" || o.name == "setattr-times"
 }
 
 func (o cop) stateFor(t ctarget) byte {
